@@ -239,9 +239,10 @@ Conforms(rd, r) ==
       bk == BackupFiledUnderWinner(rd.u)
       w  == Weak(rd.u) IN
   /\ r.surf = rd.surf /\ r.u = rd.u /\ r.rev = rd.rev
-  /\ r.mk \subseteq i.mk \cup bk \cup (IF rd.surf = "Changes" THEN Readable(rd.u) ELSE {})   \* a rebuilt feed may list an older revision too (C01's business)
+  /\ r.mk \subseteq i.mk \cup bk \cup (IF rd.surf \in {"Changes", "BlipRev"} THEN Readable(rd.u) ELSE {})   \* a rebuilt feed may list an older revision too (C01's business)
   /\ r.am \subseteq i.am \cup DocLevelAtt(rd.u) \cup bk
-  /\ Bodies(r.ents) \subseteq Bodies(i.ents) \cup bk \cup (IF rd.surf = "Changes" THEN Readable(rd.u) ELSE {})
+                     \cup (IF rd.surf = "BlipGetAttachment" /\ MayRead(rd.u, rd.rev) THEN {rd.rev} ELSE {})   \* an older revision announced too
+  /\ Bodies(r.ents) \subseteq Bodies(i.ents) \cup bk \cup (IF rd.surf \in {"Changes", "BlipRev"} THEN Readable(rd.u) ELSE {})
   /\ (~w /\ ~Del(cur)) => ((cur \in i.mk => cur \in r.mk) /\ ((cur \in i.am /\ CurIsLast /\ (rd.surf = "BlipGetAttachment" => (rd.v.during /\ rd.v.single))) => cur \in r.am))
   /\ IF w THEN r.listed => i.listed ELSE r.listed = i.listed
   /\ (~w /\ rd.surf \in {"GetDoc", "GetAttachment"} /\ rd.rev = "" /\ (rd.surf = "GetAttachment" => CurIsLast)) => r.st = i.st
